@@ -60,9 +60,21 @@ def make_handler(case):
             # circuit breaker: a crawler that never gives up is let out with a plain page so that the run ends and the
             # oracle can report the overshoot from the request log
             return {'status': 200, 'headers': html, 'body': b'<html><body>breaker</body></html>'}
-        if t == '/robots.txt':
-            if case.get('robots_mode') == 'always-503':
+        if t == '/robots.txt' or t.startswith('/robots-hop/'):
+            mode = case.get('robots_mode')
+            if mode == 'always-503':
                 return {'status': 503, 'reason': 'Unavailable', 'headers': html, 'body': b'later'}
+            k = int(t.rsplit('/', 1)[1]) if t.startswith('/robots-hop/') else 0
+            if mode == 'redirect-cycle':
+                return {'status': codes[k % len(codes)], 'reason': 'R', 'headers': [('Location', '/robots-hop/%d' % ((k + 1) % 3))], 'body': b''}
+            if mode == 'redirect-chain':
+                return {'status': codes[k % len(codes)], 'reason': 'R', 'headers': [('Location', '/robots-hop/%d' % (k + 1))], 'body': b''}
+            if mode == 'noloc':
+                return {'status': codes[0], 'reason': 'R', 'headers': [], 'body': b''}
+            if mode == 'badloc':
+                return {'status': codes[0], 'reason': 'R', 'headers': [('Location', 'http://[::bad/%%')], 'body': b''}
+            if mode == 'garbage':
+                return {'raw': b'\x00\x01 not http at all\r\n\r\n', 'close': True}
             return {'status': 404, 'reason': 'NF', 'headers': html, 'body': b'nf'}
         if t == '/':
             links = ''.join('<a href="/%s/0">%s</a>\n' % (f, f) for f in case['families'] if f != 'refused')
@@ -126,7 +138,7 @@ def run_case(case, part):
     try:
         db = os.path.join(tmp, 'crawl.db')
         argv = ['http://a.test/', '-r', '--level', '1'] + ([] if case.get('robots_mode') else ['--no-robots']) + ['--database', db, '-P', tmp, '--delete-after',
-                '--quiet', '--waitretry', '0', '--tries', str(case['tries']), '--max-redirect', str(case['max_redirect']),
+                '--quiet', '--waitretry', '0'] + (['--tries', str(case['tries'])] if case['tries'] is not None else []) + ['--max-redirect', str(case['max_redirect']),
                 '--concurrent', str(case['concurrent']), '--timeout', '10']
         if case['with_login']:
             argv += ['--http-user', 'u', '--http-password', 'p']
@@ -166,7 +178,7 @@ def run_case(case, part):
         n = sum(1 for e in log if e['target'] == '/robots.txt')
         others = [e['target'] for e in log if e['target'] != '/robots.txt']
         part.count('robots_always_503_crawls')
-        if n > case['tries'] + 1:
+        if n > (case['tries'] or 20) + 1:
             part.violation('robots-txt-retried-beyond-tries', {'requests': n, 'tries': case['tries']}, replay)
         elif others:
             part.violation('page-fetched-although-robots-txt-503', {'targets': others[:4]}, replay)
@@ -176,7 +188,21 @@ def run_case(case, part):
         return
     if not any(e['target'] == '/sentinel.html' for e in log):
         part.violation('sentinel-not-fetched', {'counts': counts}, replay)
-    tries, maxr = case['tries'], case['max_redirect']
+    # no --tries on the command line: the documented default (20, as Wget) is the configured number
+    tries, maxr = (case['tries'] if case['tries'] is not None else 20), case['max_redirect']
+    if case['tries'] is None:
+        part.count('crawls_with_default_tries')
+    if case.get('robots_mode'):
+        # a robots.txt that cannot be had (redirects without end, no or unusable Location, not HTTP): the fetch that is part
+        # of a visit follows at most max_redirect hops and is given up; the crawl goes on as for a missing robots.txt
+        n = sum(1 for e in log if e['target'] == '/robots.txt' or e['target'].startswith('/robots-hop/'))
+        part.count('crawls_with_unobtainable_robots_txt')
+        rb = tries * (maxr + 1)
+        if n > rb:
+            part.violation('more-robots-txt-requests-than-limits-allow/' + case['robots_mode'],
+                           {'requests': n, 'bound': rb, 'tries': tries, 'max_redirect': maxr}, replay)
+        else:
+            part.count('robots_txt_fetches_within_bound')
     if watch is not None:
         counts['refused'] = watch['n']
         part.count('connection_attempts_to_closed_port', watch['n'])
@@ -258,7 +284,12 @@ def main():
             cases.append({'max_redirect': m, 'tries': t, 'families': fams, 'retry_connrefused': retry_refused,
                           'codes': [rng.choice([301, 302, 303, 307, 308]) for _ in range(rng.choice([1, 2, 3]))],
                           'with_login': login, 'concurrent': rng.choice([1, 1, 3]),
-                          'robots_mode': 'always-503' if i % 8 == 7 else None})
+                          'robots_mode': ['always-503', 'redirect-cycle', 'noloc', 'garbage', 'always-503', 'redirect-chain', 'badloc'][(i // 8) % 7]
+                          if i % 8 == 7 else None})
+            if i % 16 == 5:
+                # the limit in force when the user passes none
+                cases[-1].update({'tries': None, 'families': ['e500', 'reset', 'cycle'], 'max_redirect': min(m, 2), 'with_login': False,
+                                  'retry_connrefused': None})
         nj = check.jobs * (2 if check.thorough else 1)
         jobs = [{'cases': cases[i::nj]} for i in range(nj) if cases[i::nj]]
         res = par.run_jobs(target, jobs, check.jobs, timeout=7200 if check.thorough else 900)
